@@ -15,35 +15,44 @@
 use crate::bytes::B;
 use crate::gen::msg::Header;
 use crate::model::mnemonic::{matches, Verdict};
+use crate::na::NaRec;
 use crate::rec::{LogDev, Rec};
 use proptest::prelude::*;
 use scpi::tree::Node;
 
-pub const FIXTREE: Node<'static, LogDev> = Node::Branch {
+macro_rules! fixtree {
+    ($H:ident) => {
+        Node::Branch {
     name: b"",
     default: false,
     sub: &[
-        Node::Leaf { name: b"*X", default: false, handler: &Rec { id: 0 } },
-        Node::Leaf { name: b"*ABCDEFGHIJKL", default: false, handler: &Rec { id: 1 } },
-        Node::Leaf { name: b"A", default: false, handler: &Rec { id: 2 } },
+        Node::Leaf { name: b"*X", default: false, handler: &$H { id: 0 } },
+        Node::Leaf { name: b"*ABCDEFGHIJKL", default: false, handler: &$H { id: 1 } },
+        Node::Leaf { name: b"A", default: false, handler: &$H { id: 2 } },
         Node::Branch {
             name: b"B",
             default: false,
             sub: &[
-                Node::Leaf { name: b"", default: true, handler: &Rec { id: 3 } },
+                Node::Leaf { name: b"", default: true, handler: &$H { id: 3 } },
                 Node::Branch {
                     name: b"C",
                     default: false,
-                    sub: &[Node::Leaf { name: b"DEFault", default: true, handler: &Rec { id: 4 } }, Node::Leaf { name: b"D", default: false, handler: &Rec { id: 5 } }],
+                    sub: &[Node::Leaf { name: b"DEFault", default: true, handler: &$H { id: 4 } }, Node::Leaf { name: b"D", default: false, handler: &$H { id: 5 } }],
                 },
-                Node::Leaf { name: b"E", default: false, handler: &Rec { id: 6 } },
+                Node::Leaf { name: b"E", default: false, handler: &$H { id: 6 } },
             ],
         },
-        Node::Leaf { name: b"ABCDEFGHIJKL", default: false, handler: &Rec { id: 7 } },
-        Node::Leaf { name: b"OUTPut1", default: false, handler: &Rec { id: 8 } },
-        Node::Leaf { name: b"OUTPut2", default: false, handler: &Rec { id: 9 } },
+        Node::Leaf { name: b"ABCDEFGHIJKL", default: false, handler: &$H { id: 7 } },
+        Node::Leaf { name: b"OUTPut1", default: false, handler: &$H { id: 8 } },
+        Node::Leaf { name: b"OUTPut2", default: false, handler: &$H { id: 9 } },
     ],
-};
+}
+    };
+}
+
+pub const FIXTREE: Node<'static, LogDev> = fixtree!(Rec);
+/// The same tree with allocation-free handlers (C11).
+pub const NATREE: Node<'static, crate::na::NaDev> = fixtree!(NaRec);
 
 pub const N_LEAVES: usize = 10;
 
@@ -139,4 +148,29 @@ mod tests {
         let h = Header { common: false, colon: true, path: vec!["output2".into()], query: true };
         assert_eq!(resolve(&h), Some(9));
     }
+}
+
+/// Drop the leading colon of units wherever that cannot change the meaning:
+/// the first unit, and any unit reached while the current path is still the
+/// root (all earlier units named root-level nodes or were common commands).
+/// `mask` decides unit by unit whether the opportunity is taken.
+pub fn relativize(mut msg: crate::gen::msg::Msg, mask: u16) -> crate::gen::msg::Msg {
+    let mut at_root = true;
+    for (i, u) in msg.units.iter_mut().enumerate() {
+        if u.header.common {
+            continue;
+        }
+        if at_root && mask >> (i % 16) & 1 == 1 {
+            u.header.colon = false;
+        }
+        // with or without colon this unit resolved from the root; the path is now
+        // the level of its last mnemonic
+        at_root = u.header.path.len() == 1;
+    }
+    msg
+}
+
+/// Messages over the fixed tree: absolute headers, relative where equivalent.
+pub fn fixed_message(query: BoxedStrategy<bool>, max_units: usize, max_data: usize, lead_ws: bool, indefinite: bool) -> BoxedStrategy<crate::gen::msg::Msg> {
+    (crate::gen::msg::message_with(fixed_header(query), max_units, max_data, lead_ws, indefinite), any::<u16>()).prop_map(|(m, mask)| relativize(m, mask)).boxed()
 }
